@@ -172,21 +172,32 @@ def _infer_hint_factory_collection_builtin(cls: type) -> Optional[object]:
     # all builtin collection types.
     types_collection_builtin = types & _COLLECTION_BUILTIN_TYPES
 
-    # Return either...
-    return (
-        # If this intersection is non-empty, this class subclasses one or more
-        # builtin collection types. In this case, reduce to this class as is.
-        # Since *ALL* builtin containers types are PEP 585-compliant
-        # subscriptable type hint factories under Python >= 3.9 (e.g.,
-        # "list[str]") and since this class subclasses a builtin container type,
-        # this subclass is necessarily also implicitly a PEP 585-compliant
-        # subscriptable type hint factory.
-        cls
-        if types_collection_builtin else
-        # Else, this intersection is empty, implying this class does *NOT*
-        # subclass a builtin collection type. In this case, reduce to a noop.
-        None
-    )
+    # If this intersection is empty, this class does *NOT* subclass a builtin
+    # collection type. In this case, reduce to a noop.
+    if not types_collection_builtin:
+        return None
+    # Else, this class subclasses one or more builtin collection types.
+
+    # If this class is subscriptable, reduce to this class as is. Most builtin
+    # collection types are PEP 585-compliant subscriptable type hint factories
+    # (e.g., "list[str]"), in which case so are their subclasses.
+    if hasattr(cls, '__class_getitem__'):
+        return cls
+    # Else, this class is unsubscriptable. This is the case for subclasses of
+    # the few builtin collection types that are *NOT* subscriptable (e.g., the
+    # C-based "odict_keys" and "odict_values" subclasses of the "dict_keys" and
+    # "dict_values" types, themselves validated by the subscriptable
+    # "collections.abc.KeysView" and "collections.abc.ValuesView" protocols).
+
+    # Return the type hint factory validating the first superclass of this
+    # class that is a builtin collection type mapped to such a factory.
+    for cls_base in cls.__mro__:
+        hint_factory = _COLLECTION_BUILTIN_TYPE_TO_HINT_FACTORY_get(cls_base)
+        if hint_factory:
+            return hint_factory
+
+    # Else, *NO* such factory exists. In this case, reduce to a noop.
+    return None
 
 # ....................{ PRIVATE ~ mappings                 }....................
 #FIXME: Also add:
